@@ -705,6 +705,54 @@ theorem route_identity_msgChase (H : Bytes → UInt64) (W : World) (qtype : UInt
     | fail f => exact Or.inl rfl
     | miss => exact Or.inl rfl
 
+/-- **Write-back chase** (`ResponseWriter.WriteMsg` → `additionalAnswer` on the upstream's
+answer `fresh`, before it is stored): whatever the cache contributes to the reply handed to
+the asking client are entries verified for a question of the answer's own type, class and CD
+partition, shared audience. -/
+theorem writeback_chase_hops_verified (H : Bytes → UInt64) (W : World) (qtype qclass : UInt16) (cd hasECS : Bool)
+    (d : Nat) (name : Bytes) (fresh : Entry) (reply : MsgReply)
+    (hreply : reply = additionalAnswer (fun t => msgReplyAt H W qtype cd hasECS d t qclass none) name qtype fresh) :
+    replyEntries reply = [] ∨ ∃ more, replyEntries reply = fresh :: more ∧ ∀ e ∈ more, HopOK qtype qclass cd e := by
+  subst hreply
+  have hsub : ∀ t, ∀ e ∈ replyEntries (msgReplyAt H W qtype cd hasECS d t qclass none), HopOK qtype qclass cd e := by
+    intro t e he
+    rcases route_identity_msgChase H W qtype cd hasECS d t qclass none with h | ⟨e0, rest, h, h0, hr⟩
+    · rw [h] at he; cases he
+    · rw [h] at he
+      rcases List.mem_cons.mp he with rfl | he
+      · rcases h0 with hid | ⟨c, _, hc, _⟩
+        · exact ⟨t, hid⟩
+        · cases hc
+      · exact hr e he
+  unfold additionalAnswer
+  split
+  · exact Or.inr ⟨[], rfl, by simp⟩
+  · cases ha : fresh.alias with
+    | none => exact Or.inr ⟨[], rfl, by simp⟩
+    | some t =>
+      simp only
+      cases hp : present t with
+      | none => exact Or.inr ⟨[], rfl, by simp⟩
+      | some tp =>
+        simp only
+        split
+        · exact Or.inl rfl
+        · split
+          · exact Or.inr ⟨[], rfl, by simp⟩
+          · rcases chaseLoop_spec _ name qtype qclass cd hsub maxCnameHops tp [] [fresh] with h | ⟨more, h1, h2⟩
+            · exact Or.inl h
+            · exact Or.inr ⟨more, by rw [h1]; rfl, h2⟩
+
+-- non-vacuity: the upstream answers `h. A → CNAME a.`; `a. A` is cached: the asker is told both
+example :
+    let Hh : Bytes → UInt64 := fun b => UInt64.ofNat (b.foldl (fun acc x => acc * 257 + x.toNat + 1) 0)
+    let a : Entry := { id := 2, name := [0x61, 0x2E], qtype := 1, qclass := 1, cd := false, scope := none }
+    let st : AStore := [((CacheKey.mk a.name 1 1 false none).hash Hh, a)]
+    let W : World := { st := st.get, fs := fun _ => none, cs := {} }
+    let fresh : Entry := { id := 9, name := [0x68, 0x2E], qtype := 1, qclass := 1, cd := false, scope := none, alias := some [1, 0x41, 0] }
+    (replyEntries (additionalAnswer (fun t => msgReplyAt Hh W 1 false false 9 t 1 none) [0x68, 0x2E] 1 fresh)).map (·.id) = [9, 2] := by
+  decide
+
 /-- every entry the decoded body composes into a reply has the question's own type,
 class and CD partition. -/
 theorem msgChase_entries_in_partition (H : Bytes → UInt64) (W : World) (name : Bytes) (qtype qclass : UInt16) (cd : Bool)
@@ -959,6 +1007,53 @@ theorem admitted_audience_contains_asker (p : Policy) (src ec s : Prefix)
   refine ⟨by rw [h1, hfam], by rw [h2]; omega, ?_⟩
   rw [h3, haddr]
 
+/-- **Audience, end to end**: an entry that carries the scope an answer was admitted with
+(`WriteMsg`, any echoed subnet `ec`, any operator floors) is served by the decoded path only
+to a client whose source prefix lies inside the network of
+`min(SCOPE, SOURCE, floor of ec's family)` bits around the address the authority named —
+storage-side clamp and lookup-side verification composed, for every store and hash. -/
+theorem audience_end_to_end (H : Bytes → UInt64) (p : Policy) (st : Store) (src ec s : Prefix)
+    (name : Bytes) (qtype qclass : UInt16) (cd : Bool) (client : Scope) (e : Entry)
+    (hadm : admitScope p (some src) (some ec) = some s)
+    (hscope : e.scope = normalizeKeyScope (some s)) (hbits : s.bits ≠ 0)
+    (hhit : decodedHit H st name qtype qclass cd client = some e) :
+    ∃ c, client = some c ∧ c.v6 = ec.v6 ∧
+      min (min ec.bits src.bits) (if ec.v6 then p.minScopeV6 else p.minScopeV4) ≤ c.bits ∧
+      maskBytes s.bits c.addr = maskBytes s.bits ec.addr := by
+  obtain ⟨h1, h2, h3⟩ := admitted_audience_exact p src ec s hadm
+  have hs : e.scope = some s.masked := by
+    rw [hscope]; unfold normalizeKeyScope; simp [hbits]
+  rcases scoped_hit_contains_client H st name qtype qclass cd client e hhit with hn | ⟨s', c, hs', hc, hcont⟩
+  · rw [hs] at hn; cases hn
+  · rw [hs] at hs'
+    cases hs'
+    obtain ⟨hv, hb, ha⟩ := hcont
+    simp only [Prefix.masked, Prefix.withBits] at hv hb ha
+    refine ⟨c, hc, by rw [← hv, h1], by rw [← h2]; exact hb, ?_⟩
+    rw [ha, h3, maskBytes_idem]
+
+/-- `ecs.Build` defaults: ceilings /24 and /56, floors equal to the ceilings — with the
+default configuration no admitted scope is wider than what was forwarded. -/
+theorem buildPolicy_defaults :
+    buildPolicy 0 0 0 0 = { forwardV4 := 24, forwardV6 := 56, minScopeV4 := 24, minScopeV6 := 56 } ∧
+    ∀ f4 f6, (buildPolicy f4 f6 0 0).minScopeV4 = (buildPolicy f4 f6 0 0).forwardV4 ∧
+             (buildPolicy f4 f6 0 0).minScopeV6 = (buildPolicy f4 f6 0 0).forwardV6 := by
+  refine ⟨rfl, ?_⟩
+  intro f4 f6
+  simp [buildPolicy]
+
+-- non-vacuity of audience_end_to_end: the /56 answer admitted at the /48 floor, looked up from the same /48
+example :
+    let Hh : Bytes → UInt64 := fun b => UInt64.ofNat (b.foldl (fun acc x => acc * 257 + x.toNat + 1) 0)
+    let pol := buildPolicy 24 56 24 48
+    let src : Prefix := { v6 := true, bits := 56, addr := [0x20, 0x01, 0x0d, 0xb8, 0xaa, 0xaa, 0xbb, 0, 0, 0, 0, 0, 0, 0, 0, 0] }
+    let st := admitAnswer Hh pol [] 7 [0x61, 0x2E] 1 1 false (some src) (some src)
+    (decodedHit Hh st.get [0x61, 0x2E] 1 1 false
+        (some { v6 := true, bits := 56, addr := [0x20, 0x01, 0x0d, 0xb8, 0xaa, 0xaa, 0xff, 0, 0, 0, 0, 0, 0, 0, 0, 0] })).map (·.id) = some 7 ∧
+    (decodedHit Hh st.get [0x61, 0x2E] 1 1 false
+        (some { v6 := true, bits := 56, addr := [0x20, 0x01, 0x0d, 0xb8, 0xbb, 0xbb, 0xcc, 0, 0, 0, 0, 0, 0, 0, 0, 0] })) = none := by
+  decide
+
 /-- no ECS option in the response, SCOPE 0, or a request outside ECS-aware caching: shared. -/
 theorem admitted_shared_otherwise (p : Policy) (client : Scope) (echo : Option Prefix)
     (h : client = none ∨ echo = none ∨ ∃ ec, echo = some ec ∧ ec.bits = 0) : admitScope p client echo = none := by
@@ -992,11 +1087,39 @@ theorem refresh_answers_own_question (s : AStore) (key : UInt64) (expected : Ent
   intro asked
   have := (replacement_keeps_partition s key expected newId asked.name asked.qtype asked.qclass none).1
   unfold processPrefetch at hok ⊢
+  simp only [Option.getD_none] at hok ⊢
   obtain ⟨e, he, hcd, hsc, hn, ht, hc⟩ := this hok
   obtain ⟨⟨_, _, _, h4, h5⟩, _⟩ := (entryMatchesKey_iff _ _).mp hver
   refine ⟨e, he, by rw [hn], ht, hc, ?_, ?_⟩
   · rw [hcd, h4]; rfl
   · rw [hsc, h5]
+
+/-- **A refresh that comes back answering ANOTHER question is retained as that question**
+(`ReplaceIfCurrent` takes `resp.Question[0]`, only CD and scope are inherited) … -/
+theorem refresh_retains_response_question (s : AStore) (key : UInt64) (expected : Entry) (trigger : Req) (newId : Nat)
+    (rn : Bytes) (rt rc : UInt16)
+    (hok : (processPrefetch s key expected trigger newId (some (rn, rt, rc))).2 = true) :
+    ∃ e, (processPrefetch s key expected trigger newId (some (rn, rt, rc))).1.get key = some e ∧
+      e.name = rn ∧ e.qtype = rt ∧ e.qclass = rc ∧ e.cd = expected.cd ∧ e.scope = expected.scope := by
+  have := (replacement_keeps_partition s key expected newId rn rt rc none).1
+  unfold processPrefetch at hok ⊢
+  simp only [Option.getD_some] at hok ⊢
+  obtain ⟨e, he, hcd, hsc, hn, ht, hc⟩ := this hok
+  exact ⟨e, he, hn, ht, hc, hcd, hsc⟩
+
+/-- … **so under the refreshed key it is a miss for the original question** on the
+verified routes: the answer obtained for another name, type or class is never served
+for the question that triggered the refresh. -/
+theorem refresh_of_other_question_is_miss (s : AStore) (key : UInt64) (expected : Entry) (trigger : Req) (newId : Nat)
+    (rn : Bytes) (rt rc : UInt16) (scope : Scope)
+    (hother : ¬(foldName rn = foldName trigger.name ∧ rt = trigger.qtype ∧ rc = trigger.qclass))
+    (hok : (processPrefetch s key expected trigger newId (some (rn, rt, rc))).2 = true) :
+    lookupByKeyVerified (processPrefetch s key expected trigger newId (some (rn, rt, rc))).1.get key
+      ⟨trigger.name, trigger.qtype, trigger.qclass, trigger.cd, scope⟩ = none := by
+  obtain ⟨e, he, hn, ht, hc, _, _⟩ := refresh_retains_response_question s key expected trigger newId rn rt rc hok
+  apply collision_is_miss _ key _ e he
+  rintro ⟨h1, h2, h3, _, _⟩
+  exact hother ⟨by rw [← hn]; exact h1, by rw [← ht]; exact h2, by rw [← hc]; exact h3⟩
 
 /-- the refresh request is the trigger's question in the trigger's CD partition. -/
 theorem refresh_request_keeps_partition (t : Req) :
@@ -1010,6 +1133,12 @@ example :
       (some { v6 := true, bits := 56, addr := [0x20, 0x01, 0x0d, 0xb8, 0xaa, 0xaa, 0xbb, 0, 0, 0, 0, 0, 0, 0, 0, 0] })
       (some { v6 := true, bits := 56, addr := [0x20, 0x01, 0x0d, 0xb8, 0xaa, 0xaa, 0xbb, 0, 0, 0, 0, 0, 0, 0, 0, 0] }) =
     some { v6 := true, bits := 48, addr := [0x20, 0x01, 0x0d, 0xb8, 0xaa, 0xaa, 0, 0, 0, 0, 0, 0, 0, 0, 0, 0] } := by decide
+-- non-vacuity: the refresh of `a. A` comes back answering `b. A`: asking `a.` under that key is a miss, the entry is `b.`'s
+example :
+    let e : Entry := { id := 1, name := [0x61, 0x2E], qtype := 1, qclass := 1, cd := false, scope := none }
+    let r := processPrefetch [(5, e)] 5 e ⟨[0x61, 0x2E], 1, 1, false, false⟩ 2 (some ([0x62, 0x2E], 1, 1))
+    r.2 = true ∧ lookupByKeyVerified r.1.get 5 ⟨[0x61, 0x2E], 1, 1, false, none⟩ = none ∧
+      (r.1.get 5).map (·.name) = some [0x62, 0x2E] := by decide
 -- non-vacuity: a CD=1 entry refreshed: the replacement is in the CD=1 partition
 example :
     let e : Entry := { id := 1, name := [0x61, 0x2E], qtype := 1, qclass := 1, cd := true, scope := none }
